@@ -272,9 +272,15 @@ theorem mbg_trans {a b c : State} (h1 : MbGrow a b) (h2 : MbGrow b c) : MbGrow a
 theorem mbg_sendMsg (s : State) (m : Msg) (h : msgNoExt m = true) : MbGrow s (sendMsg s m) :=
   ⟨rfl, [m], rfl, by simpa using h⟩
 
+theorem mbg_sendFinishNow (s : State) (w : Nat) (err : Option WErr) : MbGrow s (sendFinishNow s w err) := by
+  unfold sendFinishNow
+  exact mbg_trans (mbg_sendMsg s (Msg.finishTask w err) rfl) (mbg_of_eq rfl)
+
 theorem mbg_sendFinish (s : State) (w : Nat) (err : Option WErr) : MbGrow s (sendFinish s w err) := by
   unfold sendFinish
-  exact mbg_trans (mbg_sendMsg s (Msg.finishTask w err) rfl) (mbg_of_eq rfl)
+  split
+  · exact mbg_of_eq rfl
+  · exact mbg_sendFinishNow s w err
 
 theorem mbg_executeQuery (s : State) (w : Nat) (wk : Worker) (err : Option WErr) :
     MbGrow s (executeQuery s w wk err) := by
@@ -367,6 +373,7 @@ theorem mbg_wstep {s s' : State} {w pick : Nat} (h : wstep s w pick = some s') :
       · cases h; exact mbg_trans (mbg_of_eq (by simp)) (mbg_checkForUpdates _ _ _ _ _ _)
     · cases h; exact mbg_applyUpdates _ _ _ _ _ _ _
     · cases h; exact mbg_runTx _ _ _ _ _
+    · cases h; exact mbg_sendFinishNow _ _ _
     · simp only at h
       split at h
       · cases h; exact mbg_trans (mbg_of_eq (by simp)) (mbg_afterBlock _ _ _ _)
